@@ -283,7 +283,8 @@ func main() {
 	e := rep.GetEnv()
 	r := rep.New(e)
 	nGraphs := e.Pick(400, 4000)
-	ids := []string{"n1", "n2", "n3", "n4", "n5", "n6", "n7"}
+	// (two of the ids are related as X and X.Y: the property ids of X.Y begin like those of X)
+	ids := []string{"n1", "n1.n2", "n3", "n4", "n1.n2.n5", "n6", "n7"}
 
 	// directed: the listed finding (variable-looking id) as an ordinary case
 	for _, kind := range drv.Kinds {
